@@ -226,6 +226,46 @@ static void barrier_body(int n, int gens) {
     g_bar = nullptr;
 }
 
+// Happens-before through the barrier (TSan build): every thread writes a PLAIN slot of its own before the barrier, the action
+// sums the slots into a plain variable, every thread reads the sum and all slots afterwards.  No other synchronisation and no
+// shared counters: under the serialising scheduler (invisible to TSan) a report means that the barrier itself does not order
+// "everything before anyone's arrival" before "the action" before "everything after anyone's release" - e.g. an acquire load
+// weakened to relaxed, which the sequentially consistent exploration cannot see.  One slot array per generation (a thread may
+// already write generation g+1's slot while a slow thread still reads generation g's).
+static int hb_slot[4][4], hb_sum[4];
+template <class Barrier, bool Yield>
+static void barrier_hb_body(int n, int gens) {
+    Barrier bar(n);
+    g_bar = nullptr;
+    g_bar_fields = nullptr;
+    memset(hb_slot, 0, sizeof hb_slot);
+    memset(hb_sum, 0, sizeof hb_sum);
+    std::vector<thread> th;
+    for (int i = 0; i < n; ++i) {
+        th.emplace_back([&bar, i, n, gens]() {
+            for (int g = 0; g < gens; ++g) {
+                hb_slot[g][i] = 100 + i;
+                auto action = [g, n]() {
+                    int s = 0;
+                    for (int k = 0; k < n; ++k) s += hb_slot[g][k];
+                    hb_sum[g] = s;
+                };
+                if (Yield)
+                    bar.wait_yield(action);
+                else
+                    bar.wait(action);
+                int want = 0;
+                for (int k = 0; k < n; ++k) want += 100 + k;
+                if (hb_sum[g] != want) vs_fail("action-effect-not-visible", vh::fmt("T%d after generation %d: sum=%d, expected %d", vs_self(), g, hb_sum[g], want).c_str());
+                for (int k = 0; k < n; ++k)
+                    if (hb_slot[g][k] != 100 + k) vs_fail("pre-barrier-write-not-visible", vh::fmt("T%d after generation %d: slot of thread %d is %d", vs_self(), g, k, hb_slot[g][k]).c_str());
+            }
+        });
+    }
+    for (auto& t : th) t.join();
+    vs_observe(vh::fmt("hb gens=%d step=%zu", gens, (size_t)bar.step()).c_str());
+}
+
 // ---------------------------------------------------------------------------------------------
 
 static std::vector<Op> alphabet(bool thorough) {
@@ -358,6 +398,28 @@ int main(int argc, char** argv) {
                     sx.thorough_only = !(n == 2 || (n == 3 && g == 1));
                     scs.push_back(sx);
                 }
+            }
+        }
+    // --- happens-before through the barriers (meaningful in the TSan build; the value checks also run under ASan)
+    for (int n = 2; n <= 3; ++n)
+        for (int g = 1; g <= 2; ++g) {
+            struct V {
+                const char* nm;
+                void (*fn)(int, int);
+            } vs[] = {{"mutex.wait", &barrier_hb_body<tlx::ThreadBarrierMutex, false>},
+                      {"spin.wait", &barrier_hb_body<tlx::ThreadBarrierSpin, false>},
+                      {"spin.wait_yield", &barrier_hb_body<tlx::ThreadBarrierSpin, true>}};
+            for (auto& v : vs) {
+                vx::Scenario sc;
+                sc.name = vh::fmt("hb:%s:n%d:g%d", v.nm, n, g);
+                sc.family = std::string("barrier-hb.") + v.nm;
+                auto fn = v.fn;
+                sc.body = [fn, n, g]() { fn(n, g); };
+                sc.bound_quick = 1;
+                sc.bound_thorough = n == 2 ? 2 : 1;
+                sc.horizon = 20000;
+                sc.whole = true;
+                scs.push_back(sc);
             }
         }
     return vx::run(argc, argv, scs);
